@@ -1,0 +1,12 @@
+//go:build !verif
+// +build !verif
+
+// Package vhook provides trace points for model-based verification. Without
+// the build tag "verif" every trace point is an empty function.
+package vhook
+
+// Enabled tells whether trace points are compiled in.
+const Enabled = false
+
+// At marks a trace point. It does nothing in regular builds.
+func At(point string, kv ...interface{}) {}
